@@ -17,5 +17,18 @@ PROPS = {
     ),
 }
 
+PROPS["C09"] = dict(
+    engine="rc", engine_name="rc-tape", sources=["props/c09.cpp"], level="exploration", design_ref="3.10",
+    quick=dict(cases=300), thorough=dict(cases=2500),
+    technique="property-based testing (rapidcheck tapes): generated chained files, reference model of the link table + differential against standalone packet-level decode of each link (bit-exact)",
+    level_text="Generated search over chains of 1..16 encoder-made links (differing channels, rates, block sizes, lengths incl. 0 and single-page links, page layouts, serial numbers); "
+               "exact oracle on ov_streams/ov_info/ov_comment/ov_serialnumber/ov_pcm_total/ov_time_total/ov_raw_total and bit-exact audio of a read loop from the start.",
+    level_note="Trusted: system libogg, harness pager, packet-level decode as ground truth (itself covered by C01/C04). Links come from the bundled encoder.",
+    rule="case = chain of k links (config, signal, N, comments, serial numbers, page layout per link) + callback read-size schedule + request-length schedule; "
+         "non-trivial = k >= 2; distinct by hash of the chain description",
+    require_labels=["has zero-sample link", "has single-audio-page link", "first link single audio page, chained"],
+    assumptions=["system libogg 1.3.5 is correct"],
+)
+
 NOT_APPLICABLE = {}
 HOOK_COMMITS = []
